@@ -424,3 +424,44 @@ def replay_string_suffix_compare(viol):
             lst = "[" + ",".join(suf) + "]"
             cases.append(('X = "%s", X = [%s|T], ( T == %s -> write(yes) ; write(no) ), nl' % (s, skip, lst), "yes"))
     return run_cases("", cases, {"model": viol}, "C20", "string_suffix_compare")
+
+
+# ---------------------------------------------------------------- C04/C05 (Number comparison arms)
+NUMCMP_PROGRAM = """
+show(X) :- write(X), nl.
+rels(X, Y, Rs) :- findall(R, rel(R, X, Y), Rs).
+rel(lt, X, Y) :- X < Y.    rel(eq, X, Y) :- X =:= Y.   rel(gt, X, Y) :- X > Y.
+rel(le, X, Y) :- X =< Y.   rel(ne, X, Y) :- X =\\= Y.  rel(ge, X, Y) :- X >= Y.
+"""
+
+
+def replay_number_comparisons(problems):
+    """exact comparison of integers / rationals of any size, comparison through doubles with
+    floats; the six predicates must agree with each other. Expected sets from Python values."""
+    from fractions import Fraction
+    vals = [("5", Fraction(5)), ("-9223372036854775809", Fraction(-(2**63) - 1)),
+            ("9223372036854775808", Fraction(2**63)), ("-36028797018963969", Fraction(-(2**55) - 1)),
+            ("36028797018963968", Fraction(2**55)), ("-5", Fraction(-5)),
+            ("18446744073709551617", Fraction(2**64 + 1)), ("(1 rdiv 3)", Fraction(1, 3)),
+            ("(18446744073709551617 rdiv 2)", Fraction(2**64 + 1, 2)), ("0", Fraction(0))]
+    floats = [("2.5", 2.5), ("18446744073709551616.0", float(2**64)), ("-1.0e30", -1.0e30),
+              ("0.3333333333333333", 0.3333333333333333), ("36028797018963968.0", float(2**55))]
+
+    def relset(c):
+        return "[" + ",".join(r for r, ok in (("lt", c < 0), ("eq", c == 0), ("gt", c > 0), ("le", c <= 0),
+                                              ("ne", c != 0), ("ge", c >= 0)) if ok) + "]"
+    cases = []
+    for ta, va in vals:
+        for tb, vb in vals:
+            c = (va > vb) - (va < vb)
+            cases.append(("A is %s + 0, B is %s + 0, rels(A, B, Rs), show(Rs)" % (ta, tb), relset(c)))
+        for tf, vf in floats:
+            fa = float(va)          # the statement: convert the integer or rational to a double
+            c = (fa > vf) - (fa < vf)
+            cases.append(("A is %s + 0, B is %s, rels(A, B, Rs), show(Rs)" % (ta, tf), relset(c)))
+            cases.append(("A is %s + 0, B is %s, rels(B, A, Rs), show(Rs)" % (ta, tf), relset(-c)))
+    # Number vs usize: functor/3 arity checks with integers held in bignum cells
+    cases.append(("N is 2^60-2^60+2, functor(T, foo, N), show(T)", "foo(_A,_B)"))
+    cases[-1] = ("N is 2^60-2^60+2, functor(T, foo, N), functor(T, F, A), show(F/A)", "foo/2")
+    cases.append(("N is 2^60-2^60+0, functor(T, foo, N), show(T)", "foo"))
+    return run_cases(NUMCMP_PROGRAM, cases, {"model": problems[:6]}, "C04", "number_comparisons")
